@@ -10,7 +10,7 @@ use serde_json::{json, Map, Value};
 use std::collections::BTreeMap;
 use std::io::Write;
 use std::path::{Path, PathBuf};
-use std::sync::atomic::{AtomicU64, AtomicUsize, Ordering};
+use std::sync::atomic::{AtomicBool, AtomicU64, AtomicUsize, Ordering};
 use std::sync::Mutex;
 use std::time::{Duration, Instant};
 
@@ -270,6 +270,27 @@ pub fn clear_current_case() {
     }
 }
 
+/// Engines whose cases are too small to publish each of them (millions per second) call `publish_case` instead:
+/// it does nothing in a normal run. When a worker hangs outside a published case, the coordinator re-runs the
+/// same group of batches once with `VERIF_PUBLISH=1`; then every case is published before the code under test is
+/// called, the hang recurs, and the watchdog can name the case.
+static PUBLISH_ALL: AtomicBool = AtomicBool::new(false);
+#[inline]
+pub fn publish_case(f: impl FnOnce() -> Value) {
+    if PUBLISH_ALL.load(Ordering::Relaxed) {
+        set_current_case(f());
+    }
+}
+/// end of the code under test for the published case (the oracle's own work follows)
+#[inline]
+pub fn unpublish_case() {
+    if PUBLISH_ALL.load(Ordering::Relaxed) {
+        clear_current_case();
+    }
+}
+/// set in replay mode: a hang while replaying a recorded hang is the violation again
+static REPLAY_HANG: Mutex<Option<(String, String)>> = Mutex::new(None);
+
 /// CPU seconds (user + system) consumed by this process so far
 fn cpu_seconds() -> f64 {
     if let Ok(s) = std::fs::read_to_string("/proc/self/stat") {
@@ -308,6 +329,14 @@ fn start_watchdog() {
                 let out = json!({"hang": true, "batch": CUR_BATCH.load(Ordering::Relaxed), "heartbeat": now, "case": case,
                                  "cpu_seconds_without_heartbeat": burnt, "wall_seconds_without_heartbeat": wall,
                                  "by": if burnt >= CASE_CPU_LIMIT_S { "cpu" } else { "wall" }});
+                if let Some((prop, path)) = REPLAY_HANG.lock().ok().and_then(|g| g.clone()) {
+                    if burnt >= CASE_CPU_LIMIT_S {
+                        println!("VIOLATION property={} replay={}", prop, path);
+                        println!("  the code under test did not return after {} s of CPU time on the recorded case", CASE_CPU_LIMIT_S);
+                        let _ = std::io::stdout().flush();
+                        std::process::exit(1);
+                    }
+                }
                 println!("HANG {}", out);
                 let _ = std::io::stdout().flush();
                 std::process::exit(3);
@@ -321,6 +350,9 @@ fn start_watchdog() {
 
 pub fn worker_main(engine: &dyn Engine, ctx: &Ctx, lo: usize, hi: usize) {
     install_quiet_panic_hook();
+    if std::env::var("VERIF_PUBLISH").map(|v| v == "1").unwrap_or(false) {
+        PUBLISH_ALL.store(true, Ordering::Relaxed);
+    }
     start_watchdog();
     let mut rep = Report::new();
     for b in lo..hi {
@@ -347,7 +379,7 @@ pub enum WorkerOutcome {
     Crash(String),
 }
 
-fn run_worker(ctx: &Ctx, lo: usize, hi: usize) -> WorkerOutcome {
+fn run_worker(ctx: &Ctx, lo: usize, hi: usize, publish: bool) -> WorkerOutcome {
     let exe = std::env::current_exe().expect("current_exe");
     let out = std::process::Command::new(exe)
         .arg("--worker")
@@ -356,6 +388,7 @@ fn run_worker(ctx: &Ctx, lo: usize, hi: usize) -> WorkerOutcome {
         .arg(ctx.seed.to_string())
         .arg(lo.to_string())
         .arg(hi.to_string())
+        .env("VERIF_PUBLISH", if publish { "1" } else { "0" })
         .stdin(std::process::Stdio::null())
         .stderr(std::process::Stdio::piped())
         .output();
@@ -421,6 +454,8 @@ pub fn run_engine(engine: &dyn Engine, ctx: &Ctx) -> RunResult {
     let ngroups = bounds.len();
     let next = AtomicUsize::new(0);
     let results: Mutex<Vec<Option<WorkerOutcome>>> = Mutex::new((0..ngroups).map(|_| None).collect());
+    let hang_verdicts = engine.hang_is_violation(&ctx.prop);
+    let localised = AtomicUsize::new(0);
     std::thread::scope(|sc| {
         for _ in 0..nt.min(ngroups) {
             sc.spawn(|| loop {
@@ -429,7 +464,19 @@ pub fn run_engine(engine: &dyn Engine, ctx: &Ctx) -> RunResult {
                     break;
                 }
                 let (lo, hi) = bounds[g];
-                let r = run_worker(ctx, lo, hi);
+                let mut r = run_worker(ctx, lo, hi, false);
+                // a hang outside a published case: run the group once more with every case published, so that the
+                // watchdog can name the case (a few such re-runs are enough: each costs the CPU limit again)
+                if let WorkerOutcome::Hang(v) = &r {
+                    if hang_verdicts && v["case"].is_null() && v["by"] == "cpu" && localised.fetch_add(1, Ordering::SeqCst) < 4 {
+                        match run_worker(ctx, lo, hi, true) {
+                            WorkerOutcome::Hang(v2) if !v2["case"].is_null() => r = WorkerOutcome::Hang(v2),
+                            WorkerOutcome::Hang(_) => {}
+                            WorkerOutcome::Done(_) => r = WorkerOutcome::Crash(format!("group {}: a hang did not recur when the group was run again with published cases", g)),
+                            WorkerOutcome::Crash(m) => r = WorkerOutcome::Crash(m),
+                        }
+                    }
+                }
                 results.lock().unwrap()[g] = Some(r);
             });
         }
@@ -443,7 +490,8 @@ pub fn run_engine(engine: &dyn Engine, ctx: &Ctx) -> RunResult {
                 let in_case = !v["case"].is_null() && v["by"] == "cpu";
                 if engine.hang_is_violation(&ctx.prop) && in_case {
                     let case = json!({"hang": v, "group_lo": bounds[g].0, "group_hi": bounds[g].1});
-                    report.violation(&ctx.prop, engine.name(), case, format!("the code under test did not return after {} s of CPU time on one case", CASE_CPU_LIMIT_S));
+                    let shown: String = v["case"].to_string().chars().take(400).collect();
+                    report.violation(&ctx.prop, engine.name(), case, format!("the code under test did not return after {} s of CPU time on the case {}", CASE_CPU_LIMIT_S, shown));
                 } else {
                     failures.push(format!("watchdog: no progress ({} s CPU / {} s wall limit): {}", CASE_CPU_LIMIT_S, CASE_WALL_LIMIT_S, v));
                 }
@@ -682,7 +730,15 @@ pub fn replay_main(engine_for: &dyn Fn(&str) -> Option<Box<dyn Engine>>, path: &
     let mut rep = Report::new();
     start_watchdog();
     let mut case = v["case"].clone();
-    if case.is_object() {
+    if case.get("hang").is_some() {
+        // a recorded hang: replay the case that was running; not returning is the violation again
+        case = case["hang"]["case"].clone();
+        if let Ok(mut g) = REPLAY_HANG.lock() {
+            *g = Some((prop.clone(), path.to_string()));
+        }
+    }
+    PUBLISH_ALL.store(true, Ordering::Relaxed);
+    if case.is_object() && case.get("__engine").is_none() {
         case["__engine"] = v["engine"].clone();
     }
     engine.replay(&ctx, &case, &mut rep);
